@@ -42,6 +42,12 @@ CHECKS = {
         note="Trusted: vlib/opcx.py; the tolerated class (void formatting containers, empty text body = absent) is spelled out in props/c12.py and DESIGN.md. Accessors documented as creating content are not in these passes.",
         design="§3 C12",
     ),
+    "C09": dict(
+        technique="runtime monitoring: table-driven execution of every read/write property of the proxy layer (coverage of the table measured against run-time introspection) with boundary/threshold/None/out-of-domain values, reference model of last values for assignment sequences, save/re-open read-back",
+        text="148 table rows covering 116 of 116 non-exempt introspected read/write properties (23 exempt: text -> C04, core properties -> C18, chart data -> C07/C08): each value of the row's grid on a fresh object (read-back within the stated quantum, save/re-open, None semantics, out-of-domain values must raise TypeError/ValueError), random assignment sequences per object with independence groups (interference), and the same on objects found in the 67 corpus decks.",
+        note="Trusted: the property table (props/c09_table.py) transcribes the documented domains from docstrings and docs/api; the comparators implement the stated quanta. Whether a rejected call leaves the XML unchanged is not part of this statement: it is recorded as an observation here and its validity aspect is decided by C03 (unit 'rejected').",
+        design="§3 C09, Appendix A",
+    ),
     "C10": dict(
         technique="runtime monitoring: exhaustive execution of the real inserter/adder/get-or-add/change-to/remove methods over schema-derived sibling contexts; libxml2 validation of a structure-only copy of the shipped XSDs as the postcondition oracle",
         text="All 196 registered tags x their schema types x the 328 child declarations recovered from the real classes at run time; ~3e4 sibling contexts (single other child both orders, all later, all earlier, all permitted per choice alternative, every ordering of two kinds in repeatable mixed content; all pairs in thorough), each self-checked, ~1e5 method executions validated. Exhaustive over the declared context families, not over all sibling multisets.",
